@@ -115,6 +115,10 @@ class Analyzer:
                     return Lst([Item(st.cursor + i, True) for i in range(n)])   # may be shorter: handled by len() guards
                 if m == 'takewhile':
                     n = st.fresh('n'); r = Rng(st.cursor, st.cursor + Pos(0, (n,))); st.cursor = r.b; return r
+                if m == 'consume_many' and len(e.args) == 1 and isinstance(e.args[0], ast.Constant) and isinstance(e.args[0].value, int):
+                    k = e.args[0].value
+                    items = [Item(st.cursor + i, True) for i in range(k)]; st.cursor = st.cursor + k
+                    return Lst(items)
                 raise Unsupported('stream method ' + m)
             if isinstance(f, ast.Attribute) and f.attr == 'pop' and not e.args:
                 base = self.ev(f.value, st)
@@ -225,6 +229,16 @@ class Analyzer:
         if isinstance(s, ast.Expr) and isinstance(s.value, ast.Constant): return [st]
         if isinstance(s, ast.Expr) and isinstance(s.value, ast.Yield):
             self.do_yield(self.ev(s.value.value, st), st, s); return [st]
+        if isinstance(s, ast.Expr) and isinstance(s.value, ast.YieldFrom):
+            v = self.ev(s.value.value, st)
+            if isinstance(v, Opaque) and v.why == 'name ' + self.stream:
+                v = Rest(st.cursor); st.cursor = Pos(10**6)
+            e_ = s.value.value
+            if getattr(self, 'recurse_attr', None) and isinstance(e_, ast.Call) and isinstance(e_.func, ast.Attribute) and e_.func.attr == self.recurse_attr and not e_.args:
+                v = self.ev(e_.func.value, st)     # recursing into an item delivers exactly that item's content
+                if not isinstance(v, Item): raise Unsupported('yield from ' + norm(e_))
+            if not isinstance(v, (Rng, Lst, Rest, Item)): raise Unsupported('yield from ' + norm(s.value.value))
+            self.do_yield(v, st, s); return [st]
         if isinstance(s, ast.Assign) and len(s.targets) == 1:
             t = s.targets[0]; v = self.ev(s.value, st)
             if isinstance(t, ast.Name):
@@ -261,6 +275,8 @@ class Analyzer:
                     st.env[f.value.id] = Lst([]); return [st]
             if norm(f) == 'next' and norm(c.args[0]) == self.stream:
                 st.cursor = st.cursor + 1; return [st]
+            if isinstance(f, ast.Attribute) and norm(f.value) == self.stream and f.attr == 'consume_many':
+                self.ev(c, st); return [st]
             raise Unsupported(norm(s))
         if isinstance(s, ast.Try):
             return self.run(s.body, [st])
@@ -268,11 +284,26 @@ class Analyzer:
             st.finished = 'raise'; return [st]
         raise Unsupported(type(s).__name__ + ': ' + norm(s)[:60])
 
-def analyse_loop(fn, stream, init_env=None, carried=None, exempt=None):
+def analyse_loop(fn, stream, init_env=None, carried=None, exempt=None, recurse_attr=None):
     """analyse `for X in <stream>` main loop; carried: name of persistent list var (or None)"""
-    loop = [s for s in fn.body if isinstance(s, ast.For) and norm(s.iter) == stream][0]
+    # the main loop: `for X in <stream>` or `for K, G in itertools.groupby(<stream>, key=...)` (possibly through a local alias)
+    alias = {}
+    for s_ in fn.body:
+        if isinstance(s_, ast.Assign) and len(s_.targets) == 1 and isinstance(s_.targets[0], ast.Name):
+            alias[s_.targets[0].id] = s_.value
+    loop = None; grouped = False
+    for s_ in fn.body:
+        if not isinstance(s_, ast.For): continue
+        it = alias.get(s_.iter.id, s_.iter) if isinstance(s_.iter, ast.Name) and s_.iter.id != stream else s_.iter
+        if norm(it) == stream:
+            loop = s_; break
+        if isinstance(it, ast.Call) and norm(it.func) in ('itertools.groupby', 'groupby') and it.args and norm(it.args[0]) == stream \
+                and isinstance(s_.target, ast.Tuple) and len(s_.target.elts) == 2 and all(isinstance(x, ast.Name) for x in s_.target.elts):
+            loop = s_; grouped = True; break
+    if loop is None:
+        raise Unsupported('no main loop over the stream `%s` found' % stream)
     pre = fn.body[:fn.body.index(loop)]; post = fn.body[fn.body.index(loop)+1:]
-    A = Analyzer(fn, stream); A.exempt = exempt or ()
+    A = Analyzer(fn, stream); A.exempt = exempt or (); A.recurse_attr = recurse_attr
     report = []
     starts = [('EMPTY', Lst([]))] + ([('HOLD', 'hold')] if carried else [])
     end_states = set()
@@ -288,7 +319,12 @@ def analyse_loop(fn, stream, init_env=None, carried=None, exempt=None):
                 st.done = Pos(0, ()) ; hold = 'h'
                 st.env[carried] = Lst([Rng(Pos(0, ('-h',)), Pos(0), True)]); st.done = Pos(0, ('-h',))
             else: st.env[carried] = Lst([])
-        st.env[loop.target.id] = Item(st.cursor); st.cursor = st.cursor + 1
+        if grouped:
+            # itertools.groupby: each iteration hands out a non-empty run of consecutive items (library contract)
+            n_ = st.fresh('g'); run_ = Rng(st.cursor, st.cursor + Pos(0, (n_,)), True); st.cursor = run_.b
+            st.env[loop.target.elts[1].id] = run_; st.env[loop.target.elts[0].id] = Opaque('group key')
+        else:
+            st.env[loop.target.id] = Item(st.cursor); st.cursor = st.cursor + 1
         outs = A.run(loop.body, [st])
         for o in outs:
             # end of iteration: everything acquired must be discharged or held (contiguously, as a suffix) by the carried list
@@ -422,11 +458,15 @@ class An:
                 if isinstance(lastp, P): return Cat(base.parts[:-1] + [P(lastp.a, lastp.b + (-1))])
             if isinstance(base, P):
                 if isinstance(sl, ast.Constant) and sl.value == 0: return P(base.a, base.a + 1)
-                if isinstance(sl, ast.Slice):
-                    lo = sl.lower.value if sl.lower else 0
-                    if sl.upper is None: return P(base.a + lo, base.b)
-                    up = ast.literal_eval(sl.upper)
-                    if up < 0: return P(base.a + lo, base.b + up)
+                if isinstance(sl, ast.Slice) and sl.step is None:
+                    def bound(b, default):
+                        if b is None: return default
+                        v = self.ev_int(b, st)
+                        if isinstance(v, int): return (base.a + v) if v >= 0 else (base.b + v)
+                        if isinstance(v, Pos) and not base.a.syms: return Pos(base.a.c + v.c, v.syms)
+                        return None
+                    lo, up = bound(sl.lower, base.a), bound(sl.upper, base.b)
+                    if lo is not None and up is not None: return P(lo, up)
             return Opaque('subscript ' + norm(e))
         if isinstance(e, ast.IfExp):
             return ('ifexp', e)
@@ -445,6 +485,30 @@ class An:
             if isinstance(e.func, ast.Attribute) and e.func.attr == 'groups': return ('groups',)
             return Opaque('call ' + fn)
         return Opaque(type(e).__name__)
+    def ev_int(self, e, st):
+        """integer-valued expressions over the line: constants, len(piece), +/- constants, names bound to such"""
+        if isinstance(e, ast.Constant) and isinstance(e.value, int) and not isinstance(e.value, bool): return e.value
+        if isinstance(e, ast.UnaryOp) and isinstance(e.op, ast.USub):
+            v = self.ev_int(e.operand, st)
+            return -v if isinstance(v, int) else None
+        if isinstance(e, ast.Name):
+            v = st.env.get(e.id)
+            return v if isinstance(v, (int, Pos)) and not isinstance(v, bool) else None
+        if isinstance(e, ast.Call) and norm(e.func) == 'len' and len(e.args) == 1:
+            b = self.ev(e.args[0], st)
+            if isinstance(b, OptP): b = b.p
+            if isinstance(b, P) and not b.a.syms: return Pos(b.b.c - b.a.c, b.b.syms)
+            return None
+        if isinstance(e, ast.BinOp) and isinstance(e.op, (ast.Add, ast.Sub)):
+            l, r = self.ev_int(e.left, st), self.ev_int(e.right, st)
+            if l is None or r is None: return None
+            if isinstance(e.op, ast.Sub):
+                if isinstance(r, int): return l - r if isinstance(l, int) else l + (-r)
+                return None
+            if isinstance(l, int) and isinstance(r, int): return l + r
+            if isinstance(l, int): l, r = r, l
+            return l + r
+        return None
     def cat(self, a, b):
         pa = a.parts if isinstance(a, Cat) else [a]; pb = b.parts if isinstance(b, Cat) else [b]
         return Cat([x for x in pa + pb if not isinstance(x, NoneV)])
@@ -545,6 +609,12 @@ class An:
         if isinstance(s, ast.Raise): st.fin = 'raise'; return [st]
         if isinstance(s, ast.Continue): st.fin = 'continue'; return [st]
         if isinstance(s, ast.Delete): return [st]
+        if isinstance(s, ast.For) and isinstance(s.iter, ast.Call) and isinstance(s.iter.func, ast.Attribute) and s.iter.func.attr == 'takewhile':
+            # look-ahead merge (zero or more following lines are appended to `line`): decided by C01.R6
+            if not all(isinstance(b, ast.AugAssign) and norm(b.target) == 'line' for b in s.body):
+                raise Unsupported(norm(s)[:80])
+            a, b = st.clone(), st.clone(); b.env['__merged'] = True
+            return [a, b]
         if isinstance(s, ast.Expr) and isinstance(s.value, ast.Yield):
             self.do_yield(self.ev(s.value.value, st), st, s); return [st]
         if isinstance(s, ast.AugAssign) and isinstance(s.target, ast.Name) and s.target.id == 'line':
@@ -572,8 +642,12 @@ class An:
                 if isinstance(v, tuple) and v[0] == 'ifexp':
                     e = v[1]; out = []
                     for s2, val in self.branch(e.test, st):
-                        s2.env[t.id] = self.ev(e.body if val else e.orelse, s2); s2.truth.pop(t.id, None); out.append(s2)
+                        br = e.body if val else e.orelse
+                        iv = self.ev_int(br, s2)
+                        s2.env[t.id] = iv if iv is not None else self.ev(br, s2); s2.truth.pop(t.id, None); out.append(s2)
                     return out
+                iv = self.ev_int(s.value, st)
+                if iv is not None and isinstance(v, Opaque): v = iv
                 st.env[t.id] = v; st.truth.pop(t.id, None)
                 if isinstance(v, bool): st.truth[t.id] = v
                 return [st]
